@@ -25,7 +25,7 @@ def gen_cases(out, explore):
     quick = out.tier == "quick"
     # exhaustive: all streams of length <= L over 3 ids, every batch size 1..L+1, one `with` block and
     # every split into two blocks
-    L = 4 if quick else 6
+    L = 4 if quick else 5
     n_exh = 0
     for n in range(0, L + 1):
         for idsq in itertools.product((1, 2, 3), repeat=n):
@@ -36,7 +36,7 @@ def gen_cases(out, explore):
                     runs = [stream[:cut], stream[cut:]] if cut < n else [stream]
                     cases.append(dict(bs=bs, init=None, runs=runs))
                     n_exh += 1
-    n_rand = explore or (250 if quick else 6000)
+    n_rand = explore or (250 if quick else 4000)
     for _ in range(n_rand):
         n = rnd.choice([3, 5, 8, 12, 20, 40])
         pool = max(2, int(n * rnd.choice([0.3, 0.6, 1.0, 1.5])))
@@ -175,7 +175,7 @@ def run(out: common.Outcome, explore: int = 0) -> None:
     keys = {repr(c) for c in cases if nontrivial(c)}
     out.coverage.update({
         "evaluations": len(cases), "distinct_nontrivial": len(keys),
-        "rule": f"exhaustive: every stream of length <= {4 if out.tier == 'quick' else 6} over 3 span ids x every batch size 1..n+1 x "
+        "rule": f"exhaustive: every stream of length <= {4 if out.tier == 'quick' else 5} over 3 span ids x every batch size 1..n+1 x "
                 "splits into two `with` blocks; random: streams up to 40 events with duplicate ids carrying different payload/parent, "
                 "inside a batch, across batches, across blocks, whole-block re-ingestion, batch sizes incl. larger than the stream; "
                 "12% start from a store with stale association rows (outside the theorem's invariant, correspondence only); "
